@@ -530,12 +530,23 @@ def c18_run(pid, tier, seed):
         raise vf.Infra("TLC did not finish on ReadersMC: %s (%s)" % (tl["error"], log))
     # 2. real threads
     runs = []
-    for build, threads, iters in ([("tsan", 4, 25 if q else 150), ("o1", 8, 60 if q else 600)]):
+    LARGE_FIRST = ["write_files", "copy_and_equality", "observers", "stream_output", "subgraph", "bfs_searches",
+                   "reverse", "to_undirected", "to_directed", "dijkstra"]
+    confs = [("tsan", 4, 25 if q else 150, None), ("o1", 8, 60 if q else 600, None)]
+    confs += [("tsan", 4, 1 if q else 3, f) for f in LARGE_FIRST] + [("o1", 8, 4 if q else 20, "write_files")]
+
+    def conc_run(conf):
+        build, threads, iters, large = conf
         exe = vf.build_ch(build)
-        rd = vf.fresh_dir(os.path.join(vf.RUN, pid, "conc-" + build))
+        tag = build + ("-large-" + large if large else "")
+        rd = vf.fresh_dir(os.path.join(vf.RUN, pid, "conc-" + tag))
         logs = vf.fresh_dir(os.path.join(rd, "logs"))
         plan = {"threads": threads, "iterations": iters, "seed": int(seed), "vertices": 8 if q else 10,
                 "tmp": vf.fresh_dir(os.path.join(rd, "tmp")), "log_dir": logs}
+        if large:
+            # a large sparse shared graph (> 1024 vertices, a hub of degree 70); readers run before
+            # anything else has been called in the process, the baseline is taken afterwards
+            plan.update({"large": True, "vertices": 1300 if q else 2600, "first_op": large})
         planf = os.path.join(rd, "plan.json")
         with open(planf, "w") as f:
             json.dump(plan, f)
@@ -549,28 +560,34 @@ def c18_run(pid, tier, seed):
                 summary = json.loads(ln[8:])
         races = err.count("WARNING: ThreadSanitizer")
         runs.append({"build": build, "threads": threads, "iterations": iters, "summary": summary, "rc": r.returncode,
-                     "tsan_reports": races, "logs": logs})
+                     "tsan_reports": races, "logs": logs, "large_first_op": large})
         if races or "ThreadSanitizer" in err:
-            path = os.path.join(vf.REPLAYS, "%s-tsan.txt" % pid)
+            path = os.path.join(vf.REPLAYS, "%s-tsan-%s.txt" % (pid, tag))
             with open(path, "w") as f:
                 f.write(err[:200000])
             first = [l for l in err.splitlines() if "data race" in l or "#0" in l][:3]
             violations.append({"replay": path, "what": "ThreadSanitizer: %d report(s): %s" % (races, " | ".join(first)[:300])})
         if summary is None:
-            path = os.path.join(vf.REPLAYS, "%s-conc-%s-crash.txt" % (pid, build))
+            path = os.path.join(vf.REPLAYS, "%s-conc-%s-crash.txt" % (pid, tag))
             with open(path, "w") as f:
                 f.write(err[-20000:])
             if not races:
                 violations.append({"replay": path, "what": "concurrent harness (%s build) died with status %s" % (build, r.returncode)})
-            continue
+            return
         for c in summary["classes"]:
             if c["write_set_violations"] or c["result_mismatches"]:
-                path = os.path.join(vf.REPLAYS, "%s-conc-%s-%s.json" % (pid, build, c["class"]))
+                path = os.path.join(vf.REPLAYS, "%s-conc-%s-%s.json" % (pid, tag, c["class"]))
                 with open(path, "w") as f:
                     json.dump({"kind": "conc", "build": build, "plan": plan, "class": c}, f, indent=1)
                 violations.append({"replay": path, "what": "%s (%s build): %s" % (c["class"], build,
                                    "; ".join(c["write_set_violations"] + ["thread result differs from the sequential one: " + m
                                                                              for m in c["result_mismatches"]])[:300])})
+    vf.build_ch("tsan")
+    vf.build_ch("o1")
+    for conf in confs[:2]:
+        conc_run(conf)
+    with concurrent.futures.ThreadPoolExecutor(max_workers=3) as ex:
+        list(ex.map(conc_run, confs[2:]))
     # 3. TLC validation of the merged Begin/End logs
     validated, events, overlaps = 0, 0, 0
     jobs = []
@@ -617,8 +634,8 @@ def c18_run(pid, tier, seed):
             violations.append({"replay": path, "what": "concurrent log rejected at event %s of %d: a thread's result differs "
                                                         "from the sequential one, or Begin/End do not alternate" % (v["matched"], v["events"])})
     ops = sorted({o for run in runs if run["summary"] for c in run["summary"]["classes"] for o in c["ops"]})
-    total_ops = sum(c["threads"] * c["iterations_per_thread_per_phase"] * 2 for run in runs if run["summary"]
-                    for c in run["summary"]["classes"])
+    total_ops = sum(c["threads"] * c["iterations_per_thread_per_phase"] * (len(c["ops"]) if c["class"].endswith("[large]") else 2)
+                    for run in runs if run["summary"] for c in run["summary"]["classes"])
     cov = {
         "evaluations": total_ops,
         "distinct_nontrivial": sum(len(c["ops"]) for run in runs[:1] if run["summary"] for c in run["summary"]["classes"]),
@@ -627,14 +644,17 @@ def c18_run(pid, tier, seed):
                 "iteration, state, copy+equality, stream output, subgraph extraction, all BFS searches, reversal, conversions, "
                 "Dijkstra, file writers to distinct files) of eight classes is (a) shown to leave the object's bytes and containers "
                 "unchanged, (b) run by 4 threads under ThreadSanitizer and by 8 threads in an optimised build with every result "
-                "compared to the sequential one; distinct = (class, entry-point group) pairs; evaluations = operations run by threads",
+                "compared to the sequential one, (c) run on a large sparse shared graph (> 1024 vertices, hub of degree 70) in one fresh "
+                "process per entry-point group in which all threads call that group FIRST and simultaneously, the sequential baseline "
+                "being taken afterwards (first-use initialisation and size/degree-threshold paths under contention); "
+                "distinct = (class, entry-point group) pairs; evaluations = operations run by threads",
         "samples": [{"class": c["class"], "ops": c["ops"]} for run in runs[:1] if run["summary"] for c in run["summary"]["classes"][:3]],
         "states": tl["distinct"], "transitions": tl["generated"],
         "traces_validated_against_impl": validated, "trace_events_validated": events,
         "begin_events_overlapping_another_operation": overlaps,
         "tsan_reports": sum(r["tsan_reports"] for r in runs),
         "entry_point_groups": ops,
-        "runs": [{k: r[k] for k in ("build", "threads", "iterations", "rc", "tsan_reports")} for r in runs],
+        "runs": [{k: r[k] for k in ("build", "threads", "iterations", "rc", "tsan_reports", "large_first_op")} for r in runs],
     }
     return violations, cov, ["the data-race verdict rests on ThreadSanitizer over the schedules that actually occurred (not all "
                              "schedules); the all-interleavings argument is on the model and needs the write sets to be empty, which is "
